@@ -33,7 +33,7 @@ from .. import hyp_common as hc
 
 TOL = 1e-9
 TAN_INVS = ["FormPreserved", "Normalised", "FrameValid", "AlongLaws", "TurnLaws", "Transport", "SecondsValid", "EmitObs"]
-POLY_INVS = ["CosTableSound", "AngleCaseLaws", "RadiusCaseLaws", "AdmissibleIffPositive", "EmitCase"]
+POLY_INVS = ["CosTableSound", "SurfaceCaseLaws", "AngleCaseLaws", "RadiusCaseLaws", "AdmissibleIffPositive", "EmitCase"]
 SCALES = (1.0, 2.0, 1.0 / 3.0, 5.0, 0.5)
 
 
@@ -194,7 +194,7 @@ def check_frame(n, ob, seconds, idx):
         count("point_along")
         evals += 1
         try:
-            tv = make_tv(H, tan, 1.0 if form == 1 else m, form)
+            tv = make_tv(H, tan, 1.0, form)            # point_along is specified for unit tangent vectors
             got = tv.point_along(t)
             gq = np.asarray(got.proj_data, float)
             if gq.shape != q.shape:
@@ -223,7 +223,7 @@ def check_frame(n, ob, seconds, idx):
             if mis:
                 bad("unit_tangent_towards.direction", mis, sub)
                 continue
-            if not abs(hc.mink(vv, vv) - 1) <= 1e-9 * max(1.0, float(np.abs(px).max())) ** 2:
+            if not abs(hc.mink(vv, vv) - 1) <= TOL * max(1.0, float(np.abs(px).max())):
                 bad("unit_tangent_towards.unit", "<v,v> = %r" % float(hc.mink(vv, vv)), sub)
                 continue
             with np.errstate(all="ignore"):
@@ -250,10 +250,10 @@ def check_frame(n, ob, seconds, idx):
             if not (np.isfinite(ang) and -1e-12 <= ang <= math.pi + 1e-12):
                 bad("angle.finite_in_range", "angle = %r, spec cos = %r" % (ang, c), sub)
                 continue
-            if not abs(math.cos(ang) - c) <= TOL * max(1.0, float(np.abs(px).max())) ** 2:
+            if not abs(math.cos(ang) - c) <= TOL * max(1.0, float(np.abs(px).max())):
                 bad("angle.value", "cos(angle) = %r, spec cos = %s" % (math.cos(ang), tr["cos"]), sub)
                 continue
-            if not (np.isfinite(ang_rev) and abs(math.cos(ang_rev) - c) <= TOL * max(1.0, float(np.abs(px).max())) ** 2):
+            if not (np.isfinite(ang_rev) and abs(math.cos(ang_rev) - c) <= TOL * max(1.0, float(np.abs(px).max()))):
                 bad("angle.symmetric", "angle(tv2, tv) = %r, angle(tv, tv2) = %r" % (ang_rev, ang), sub)
                 continue
         except Exception as e:
@@ -269,7 +269,7 @@ def check_frame(n, ob, seconds, idx):
             evals += 1
             sub2 = sub + ":t1=%d/%d:t2=%d/%d" % (tuple(pt[a]["t"]) + tuple(tr["pts"][b]["t"]))
             try:
-                q1 = make_tv(H, tan, m, form).point_along(t1)
+                q1 = make_tv(H, tan, 1.0, form).point_along(t1)
                 q2 = make_tv(H, tr["tv"], 1.0, 1).point_along(t2)
                 if not hc.proj_close(np.asarray(q2.proj_data, float), np.array(tr["pts"][b]["q"], float), TOL):
                     bad("law_of_cosines.point", "second point %r, spec %r" % (np.asarray(q2.proj_data).tolist(), tr["pts"][b]["q"]), sub2)
@@ -378,7 +378,7 @@ def composite(run, n, obs, seconds):
             t = np.array([tanh_arg(o["along"][j]["t"]) for o in obs])
             want = np.array([o["along"][j]["q"] for o in obs], float)
             run.case(key=(key, "point_along", j), action="composite.point_along")
-            gq = np.asarray(fresh().point_along(t).proj_data, float)
+            gq = np.asarray(H.TangentVector(H.Point(P.copy()), V.copy()).point_along(t).proj_data, float)      # unit vectors
             ok = gq.shape == want.shape and hc.proj_close(gq, want, TOL)
             if not ok:
                 run.violation(key + ":point_along:%d" % j, "composite.point_along",
@@ -389,7 +389,7 @@ def composite(run, n, obs, seconds):
             want = np.array([rat(o["turns"][j]["cos"]) for o in obs])
             with np.errstate(all="ignore"):
                 ang = np.asarray(fresh().angle(H.TangentVector(H.Point(P.copy()), 3.0 * V2)), float)
-            badm = ~(np.isfinite(ang) & (np.abs(np.cos(ang) - want) <= TOL * scale ** 2)) if ang.shape == want.shape else np.ones(k, bool)
+            badm = ~(np.isfinite(ang) & (np.abs(np.cos(ang) - want) <= TOL * scale)) if ang.shape == want.shape else np.ones(k, bool)
             if badm.any():
                 i = first_bad(badm)
                 run.violation(key + ":angle:%d:%d" % (j, i), "composite.angle",
@@ -448,7 +448,7 @@ def pairs(run, n, r, rng):
         sc = np.maximum(1.0, np.abs(gx).max(-1))
         yh = y / np.sqrt(-hc.mink(y, y))[..., None]
         vraw = np.asarray(utv.vector, float)
-        badm = (~proj_close_rows(gx, x)) | (np.abs(hc.mink(vraw, vraw) - 1) > TOL * sc ** 2) | (np.abs(hc.mink(gx, gv)) > TOL * sc ** 2) \
+        badm = (~proj_close_rows(gx, x)) | (np.abs(hc.mink(vraw, vraw) - 1) > TOL * sc) | (np.abs(hc.mink(gx, gv)) > TOL * sc ** 2) \
             | ~(hc.mink(gv, yh) > 0)
         if np.any(badm):
             i = int(np.nonzero(np.atleast_1d(badm))[0][0])
@@ -521,7 +521,7 @@ def poly_case(e):
         a = None
     else:
         a = math.pi * k["a"][0] / k["a"][1]
-        key = "polygon:n=%d:a=%dpi/%d:dim=%d" % (n, k["a"][0], k["a"][1], dim)
+        key = "polygon:%sn=%d:a=%dpi/%d:dim=%d" % ("genus=%d:" % k["genus"] if kind == "surface" else "", n, k["a"][0], k["a"][1], dim)
         args = dict(angle=a)
         R = None
     exact = kind != "generic"
@@ -550,9 +550,19 @@ def poly_case(e):
                     bad("formulas_inverse", "regular_polygon_radius(n, polygon_interior_angle(n, R)) = %r, R = %r" % (R_back, R))
     except Exception as ex:
         bad("raised:formulas", err_text(ex))
+    if kind == "surface":
+        try:
+            Rg = float(H.genus_g_surface_radius(k["genus"]))
+            if not abs(math.cosh(Rg) ** 2 - qval(e, "coshsqR")) <= TOL * qval(e, "coshsqR"):
+                bad("surface_radius.value", "cosh^2 of genus_g_surface_radius(%d) = %r, spec %r" % (k["genus"], math.cosh(Rg) ** 2, qval(e, "coshsqR")))
+        except Exception as ex:
+            bad("raised:genus_g_surface_radius", err_text(ex))
     # the polygon
     try:
-        poly = H.Polygon.regular_polygon(n, dimension=dim, **args)
+        if kind == "surface":
+            poly = H.Polygon.regular_surface_polygon(k["genus"])
+        else:
+            poly = H.Polygon.regular_polygon(n, dimension=dim, **args)
         V = poly.get_vertices()
         data = np.asarray(V.proj_data, float)
         if data.shape != (n, dim + 1) or tuple(poly.shape) != ():
@@ -587,7 +597,7 @@ def poly_case(e):
             elif not (ang_c.shape == (n,) and np.isfinite(ang_c).all() and (np.abs(np.cos(ang_c) - want_cos) <= 1e-8).all()):
                 bad("polygon.interior_angle_composite", "interior angles (vectorised) %r, cos %r" % (ang_c.tolist(), want_cos))
     except Exception as ex:
-        bad("raised:regular_polygon", err_text(ex))
+        bad("raised:regular_surface_polygon" if kind == "surface" else "raised:regular_polygon", err_text(ex))
     return out
 
 
